@@ -200,6 +200,8 @@ def warm(plan):
     """Fill the parser memo of this pool process: one in-process fault-free run of the scenario."""
     _setup_child()
     from travsim import run as trun
+    from sim import memo
+    memo.trim()
     warm_plan = copy.deepcopy(plan)
     warm_plan["defaults_only"] = True
     scen = warm_plan["scenario"]
@@ -290,6 +292,19 @@ def minimise(plan, violation, budget_runs=24, wall=90.0):
     return plan, stats
 
 
+def regression_plans(prop):
+    """Plans stored under /verif/regressions for this property (replays of defects that were repaired)."""
+    import glob
+    plans = []
+    for path in sorted(glob.glob(os.path.join(common.VERIF, "regressions", f"{prop}-*.json"))):
+        with open(path) as handle:
+            plan = json.load(handle)["plan"]
+        plan["property"] = prop
+        plan["_regression"] = os.path.basename(path)
+        plans.append(plan)
+    return plans
+
+
 def run_check(prop, tier, replay=None):
     from travsim import scenarios, gensuite
     gensuite.run_id()
@@ -304,6 +319,9 @@ def run_check(prop, tier, replay=None):
     wall = float(os.environ.get("VERIF_WALL", wall))
     seeds = [derive_seed(seed0, prop, tier, i) for i in range(max_runs)]
     plans = [scenarios.plan_for(prop, s, tier) for s in seeds]
+    # histories of repaired defects run first in every batch: a fixed entry suppresses nothing
+    regressions = regression_plans(prop)
+    plans = regressions + plans
     # the first two plans double as evidence samples
     for p in plans[:2]:
         p["_want_sample"] = True
